@@ -22,7 +22,7 @@ KINDS = ["next_corner", "previous_corner", "opposite_corner", "corner_to_half_ed
          "vertex_to_vertices", "vertex_to_faces", "vertex_to_corners", "vertex_to_edges", "vertex_to_corner_in_face",
          "face_to_vertices", "face_to_edges", "face_to_corners", "face_to_first_corner", "face_to_faces", "in_face_index",
          "face_id", "edge_id", "other_edge_end", "edge_to_vertices", "is_edge_on_border", "is_vertex_on_border",
-         "boundary_edges", "boundary_vertices", "is_triangular"]
+         "boundary_edges", "boundary_vertices", "is_triangular", "clear_caches", "ith_vertex_of_face"]
 
 
 @st.composite
@@ -258,6 +258,18 @@ def do_query(m, ref, medges, eid, sort_on, q, ctx, where):
         if ok and ok2:
             ar = set(len(f) for f in ref.F)
             ctx.check(bool(t) == (ar == {3}) and bool(q4) == (ar == {4}), sig, f"{where}: is_triangular={t} is_quad={q4} for arities {ar}")
+    elif kind == "clear_caches":
+        # documented resets: the next query regenerates the internal tables; no answer may change
+        if a % 2 == 0:
+            call(C.clear)
+        if a % 3 != 1:
+            call(m.clear_boundary_data)
+    elif kind == "ith_vertex_of_face":
+        f = a % nF
+        i = b % len(ref.F[f])
+        ok, r = call(m.ith_vertex_of_face, f, i)
+        if ok:
+            ctx.check(int(r) == ref.F[f][i], sig, f"{where}: ith_vertex_of_face({f},{i}) = {r}")
     else:
         raise AssertionError(kind)
 
@@ -332,6 +344,10 @@ def fn(case, ctx):
             qs = [[kind, e, rnd.randrange(nV), c] for e in range(nE) for c in (0, 1, 2)]
         elif kind == "edge_to_vertices":
             qs = [[kind, e, 0, 0] for e in range(nE)]
+        elif kind == "ith_vertex_of_face":
+            qs = [[kind, f, j, 0] for f in range(nF) for j in range(len(F[f]))]
+        elif kind == "clear_caches":
+            qs = [[kind, rnd.randrange(6), 0, 0]]
         else:
             qs = [[kind, 0, 0, 0]]
         for q in qs:
